@@ -274,6 +274,7 @@ def run_job(job, keep_graph=False):
         sig=hash(tuple(S.sig)) & 0xFFFFFFFF,
         episodes=out["episodes"],
         trace=trace,
+        init_rng={n: onp.asarray(gs0.rng[n]).astype(onp.uint32).tolist() for n in nodes},
         wall=_time.time() - t0,
     )
     S.shutdown()
